@@ -35,6 +35,8 @@ type Behaviour struct {
 	BogusPermille          int // additionally emit an answer carrying an id nobody asked
 	JunkPermille           int // additionally emit an unrelated packet (unknown magic, short answer, unsolicited pong)
 	NoPong                 bool
+	HoldInfoAfter          int // per connection: answers to getMasterchainInfo after this many are held ...
+	HoldInfoMs             int // ... for this long (the pool then refreshes while every head it knows is still 0)
 	StaleInfoPermille      int // getMasterchainInfo reports a head a few blocks old (a lagging replica behind one address)
 }
 
@@ -57,11 +59,12 @@ type held struct {
 }
 
 type sconn struct {
-	hsBuf []byte
-	sess  *adnl.Session
-	fr    *adnl.Framer
-	dead  bool
-	sent  int
+	infoCalls int
+	hsBuf     []byte
+	sess      *adnl.Session
+	fr        *adnl.Framer
+	dead      bool
+	sent      int
 }
 
 // Query is what the server saw, for oracles.
@@ -91,6 +94,7 @@ type Server struct {
 	Dropped  int
 	// Echo answers raw (non liteServer.query) requests with tag|sha256(payload)|counter.
 	EchoCounter int
+	extraDelay  time.Duration // set by an answer builder: this answer becomes sendable later
 	// DupNext, when non-zero, makes the next answer go out with this many extra copies. One-shot.
 	DupNext int
 	// LieOuterLen, when non-zero, makes the next adnl.message.answer declare this many answer bytes
@@ -330,7 +334,8 @@ func (s *Server) reply(c *core.Conn, qid []byte, answer []byte) {
 	}
 	s.Answered++
 	pkt := s.AnswerPacket(qid, answer)
-	s.Push(c, pkt, now+s.think(), "answer")
+	s.Push(c, pkt, now+s.think()+s.extraDelay, "answer")
+	s.extraDelay = 0
 	if s.DupNext > 0 {
 		for i := 0; i < s.DupNext; i++ {
 			s.W.Probe("answer-duplicated")
@@ -384,6 +389,10 @@ func (s *Server) blockIDExt(w *tlref.W, seqno uint32) {
 
 // liteAnswer computes the answer of a lite-server function.
 func (s *Server) liteAnswer(c *core.Conn, q []byte) []byte {
+	if len(q) == 0 {
+		// a bare waitMasterchainSeqno prefix: the wait is over, nothing else was asked
+		return s.ErrorAnswer(0, "")
+	}
 	if len(q) < 4 {
 		return s.ErrorAnswer(400, "empty query")
 	}
@@ -398,6 +407,13 @@ func (s *Server) liteAnswer(c *core.Conn, q []byte) []byte {
 	w := &tlref.W{}
 	switch fn {
 	case s.Sch.ID("liteServer.getMasterchainInfo"):
+		if st, ok := c.ServerData.(*sconn); ok && s.Beh.HoldInfoMs > 0 {
+			st.infoCalls++
+			if st.infoCalls > s.Beh.HoldInfoAfter {
+				s.extraDelay = time.Duration(s.Beh.HoldInfoMs) * time.Millisecond
+				s.W.Probe("masterchain-info-held")
+			}
+		}
 		w.U32(s.Sch.ID("liteServer.masterchainInfo"))
 		head := s.Head
 		if s.permille(s.Beh.StaleInfoPermille) && head > s.MinHead+3 {
